@@ -77,7 +77,7 @@ def run_cases(rep, tier, seed, prop, impl, model):
             # sometimes a generous `repeat time` next to the count: the count still decides
             both = prop == "C05" and idx % 4 == 2
             g = playgen.gen_play(SplitMix(seed * 1000 + idx), nacts=len(g["acts"]), spotlight=spot, long_actions=long_actions,
-                                 repeat={"from": ch, "count": repeat["count"], "time": "40s" if both else None}, **kw)
+                                 repeat={"from": ch, "count": repeat["count"], "time": "40s" if both else None}, edit_first=(idx % 2 == 1), **kw)
             g["repeat_count"] = repeat["count"]
             g["repeat_time"] = both
             g["repeat_char"] = ch
